@@ -80,6 +80,7 @@ class Token:
         sim = self.sim
         while True:
             try:
+                sim.n_yielded += 1
                 got = yield self
             except Interrupt as exc:
                 if exc is not self.expect_interrupt:
@@ -156,6 +157,8 @@ class Sim:
         self.trace = []  # (task id, token kind) per step: the interleaving
         self.breaches = []  # C17 protocol breaches
         self.n_tokens = 0
+        self.n_yielded = 0   # times a user awaitable yielded its token ...
+        self.n_received = 0  # ... and times the loop got one: equal unless somebody else drove an awaitable
         self.n_interrupts = 0
         self.n_interrupts_absorbed = 0
         self.n_finalizers = 0
@@ -299,6 +302,7 @@ class Sim:
             self.current = None
         # the task suspended: classify what reached the loop
         if type(got) is Token and got.live and got.task is task and got.sim is self:
+            self.n_received += 1
             if got is not token:
                 task.nsusp += 1
             task.token = got
@@ -453,12 +457,17 @@ class GcGuard:
 
 def drive_sync(coro):
     """Drive a coroutine that must not suspend; returns (suspended?, value, error)"""
+    from .vclock import VCLOCK
+
+    VCLOCK.active = True
     try:
         got = coro.send(None)
     except StopIteration as stop:
         return False, stop.value, None
     except BaseException as err:
         return False, None, err
+    finally:
+        VCLOCK.active = False
     # it suspended: that is the observation; clean up
     try:
         coro.close()
